@@ -101,11 +101,12 @@ Definition cm_row (k e : nat) (s : st) : st :=
   else s1.
 
 (* void row(k,start,end,storage) const : out-of-order access, cache untouched.  Every caller in the
-   library uses start = 0.  The C++ copies the whole cached line (cached entries, even when
-   cached > end: the caller's buffer must have room for max(cached,end) cells) and evaluates
-   [cached,end) from the base matrix; callers read the first [end] cells. *)
+   library uses start = 0.  As repaired by f9a1ac31 the C++ copies the cached cells [0, min(cached,end)) and
+   evaluates [min(cached,end), end) from the base matrix: exactly [end] cells are written.  (Before, the whole
+   cached line was copied, past the end of the caller's buffer when cached > end.) *)
 Definition cm_row_const (k e : nat) (s : st) : list T :=
-  firstn e (line s k ++ brow (perm s) k (linelen s k) e).
+  let c := Nat.min (linelen s k) e in
+  firstn c (line s k) ++ brow (perm s) k c e.
 
 Definition flip_line (p : list nat) (i j k : nat) (l : list T) : list T :=
   if length l <=? i then l
